@@ -480,6 +480,17 @@ def check_weights_and_initialisers(run, A):
             cs = class_sum_form(t.args[2])
             ok = cs is not None and cs[1] == 0 and cs[2] == 0 and strip_views(cs[0]) is strip_views(t.args[1])
     run.check(ok, 'R-AXIS', 'deflationSeed: normalised over its class axis (0)', f.loc(), '', 'deflation posterior is not divided by its sum over axis 0', construct='R-AXIS::deflationSeed::normalisation')
+    # what is normalised is non-negative as a whole: the remainder class 1 - sum_k similarity_k can be negative for three or more sources,
+    # so the flooring must come after it was appended (the floored stack is the numerator)
+    okf = False
+    for t in unwrap_gamma(gg.ret):
+        t = strip_views(t)
+        if t.op in ('binop', 'iop') and t.args[0] == 'Div':
+            num = strip_views(t.args[1])
+            okf = is_call_to(num, 'numpy.maximum', 'numpy.clip') and any(strip_views(a_).op == 'param' and strip_views(a_).args[0] == 'eps' for a_ in call_parts(num)[1])
+    run.check(okf, 'ORDER', 'deflationSeed: the whole stack (including the remainder class) is floored before it is normalised', f.loc(), '',
+              'the value that is normalised is not np.maximum(<all classes>, eps): the remainder class 1 - sum(similarities) stays negative where two similarities exceed one in sum',
+              construct='ORDER::deflationSeed::floor-before-normalise')
     # dirichlet / one_hot: class axis moved to -2
     for name in ('dirichlet', 'one_hot'):
         f = prog.func('pb_bss.initializer.iid::' + name)
